@@ -378,6 +378,27 @@ pub fn docol() -> ZooLang {
     }
 }
 
+pub const SEAM_SCANNER: &str = include_str!("../../zoo/seam_scanner.c");
+
+/// A scanner that queries range boundaries: a word that begins at the first byte of an included range is a `seam_word`.
+/// Used by C13 only, with its own expectation (the concatenated text has no seams to ask about); it is not part of the core
+/// zoo because two range lists that cover the same bytes in different pieces are the same input to the runtime's reuse logic
+/// and a different one to this scanner.
+pub fn seam() -> ZooLang {
+    let g = G::new("seam")
+        .external(sym("seam_word")).external(sym("plain_word"))
+        .rule("source", rep(choice(vec![sym("seam_word"), sym("plain_word"), sym("number"), sym("group")])))
+        .rule("group", seq(vec![s("("), rep(choice(vec![sym("seam_word"), sym("plain_word"), sym("number")])), s(")")]))
+        .rule("number", pat("[0-9]+"))
+        .extras(vec![pat("\\s")]);
+    ZooLang {
+        name: "seam", spec: spec(g, Some(SEAM_SCANNER)),
+        lexemes: vec!["a", "bc", "1", " ", "(", ")"],
+        seeds: vec!["", "a", "ab cd", "a 1 b", "(a b) c", "ab(cd)ef", " a", "a\nb c\n", "1a2b", "(a", "a) b"],
+        skippable: b" \t\r\n", has_scanner: true,
+    }
+}
+
 pub const MODAL_SCANNER: &str = include_str!("../../zoo/modal_scanner.c");
 
 /// Scanner state that flows across siblings: `!` toggles a mode, and every later word is a `loud_word` or a `plain_word`
@@ -474,7 +495,7 @@ pub fn core_zoo() -> Vec<ZooLang> {
 pub fn by_name(name: &str) -> Option<ZooLang> {
     match name {
         "arith" => Some(arith()), "stmts" => Some(stmts()), "jsonish" => Some(jsonish()), "glr" => Some(glr()), "lexla" => Some(lexla()),
-        "indent" => Some(indent()), "pstring" => Some(pstring()), "lookfar" => Some(lookfar()), "groups" => Some(groups()), "resv" => Some(resv()), "tmpl" => Some(tmpl()), "tagl" => Some(tagl()), "colm" => Some(colm()), "modal" => Some(modal()), "docol" => Some(docol()),
+        "indent" => Some(indent()), "pstring" => Some(pstring()), "lookfar" => Some(lookfar()), "groups" => Some(groups()), "resv" => Some(resv()), "tmpl" => Some(tmpl()), "tagl" => Some(tagl()), "colm" => Some(colm()), "modal" => Some(modal()), "docol" => Some(docol()), "seam" => Some(seam()),
         _ => None,
     }
 }
